@@ -564,9 +564,65 @@ class CallMixin:
       raise Unsupported('yield outside a generator under verification')
     s = self.yield_log.seq
     self.yield_log.seq = VSeq(z3.Store(s.arr, s.n, self.unwrap(s.kind, v)), s.n + 1, s.kind)
+    c = self.cur_contract_for_loops
+    if c is not None and c.abandon and self.call_depth <= 1 and self.branch(self.fresh_bool('consumer_closes_here')):
+      self.raise_('GeneratorExit')
 
   def do_yield_from(self, src):
-    raise Unsupported('yield from')
+    """`yield from (elt for target in it)` / `yield from it` summarised exactly: every element from the
+    iterator's position up to the first failing one (or the end) is yielded, mapped, in order; then the
+    iterator is exhausted, or its error is raised at the failing element."""
+    if self.yield_log is None:
+      raise Unsupported('yield from outside a generator under verification')
+    gen = None
+    if isinstance(src, VGen):
+      gen, it = src, src.it
+    elif isinstance(src, VIter):
+      it = src
+    else:
+      raise Unsupported(f'yield from {type(src).__name__}')
+    if not (isinstance(it.dead, bool) or z3.is_false(it.dead)):
+      if self.branch(it.dead):
+        return NONE
+    p0, n = it.pos, it.src.n
+    if it.fails is not None:
+      f = self.fresh_int('first_failure')
+      j = self.fresh_int('j')
+      self.assume(z3.And(p0 <= f, f <= n))
+      self.assume(z3.ForAll([j], z3.Implies(z3.And(p0 <= j, j < f), z3.Not(z3.Select(it.fails, j)))))
+      self.assume(z3.Implies(f < n, z3.Select(it.fails, f)))
+    else:
+      f = n
+    # the consumer may close the generator after any yielded element: then only a non-empty proper
+    # prefix [p0, a) was yielded and GeneratorExit is raised at that yield
+    c = self.cur_contract_for_loops
+    abandoned = False
+    if c is not None and c.abandon and self.call_depth <= 1 and self.branch(self.fresh_bool('consumer_closes_here')):
+      a = self.fresh_int('abandoned_at')
+      self.assume(z3.And(p0 < a, a <= f))
+      f_full, f, abandoned = f, a, True
+    j = self.fresh_int('j')
+    elem = it.wrap_fn(j) if it.wrap_fn is not None else self.wrap(it.src.kind, z3.Select(it.src.arr, j))
+    if gen is not None:
+      e2 = {'__parent__': gen.env}
+      self.assign_target(gen.target, elem, e2)
+      elem = self.ev(gen.elt, e2)
+    out = self.yield_log.seq
+    term = self.unwrap(out.kind, elem)
+    arr = z3.Array(self.path.fresh_name('out.arr'), z3.IntSort(), out.arr.sort().range())
+    i = self.fresh_int('i')
+    self.assume(z3.ForAll([i], z3.Implies(z3.And(0 <= i, i < out.n), z3.Select(arr, i) == z3.Select(out.arr, i))))
+    self.assume(z3.ForAll([j], z3.Implies(z3.And(p0 <= j, j < f), z3.Select(arr, out.n + j - p0) == term)))
+    self.yield_log.seq = VSeq(arr, z3.simplify(out.n + f - p0), out.kind)
+    if abandoned:
+      it.pos = f
+      self.raise_('GeneratorExit')
+    it.pos = z3.If(f < n, f + 1, n)
+    if it.fails is not None and self.branch(f < n):
+      if not it.resumable:
+        it.dead = z3.BoolVal(True)
+      self.raise_(it.err, VStr('element failed'))
+    return it.ret if it.ret is not None else NONE
 
 
 def none_obj_():
